@@ -226,7 +226,7 @@ def run_check(prop, tier, replay=None, label=None):
         if drift:
             run.cov["model_binding"] = "drift"
             run.cov["drifted_scenarios"] = drift
-            vlib.log("DRIFT: %d scenario(s) are not behaviours of App.tla although no property failed on them" % drift)
+            vlib.log("DRIFT: %d scenario(s) are not behaviours of App.tla / Container.tla (runner phase) although no property failed on them" % drift)
         for (name, r) in notes:
             vlib.log("MODEL-COUNTEREXAMPLE %s %s %s" % (name, r.kind, r.violated))
         if notes and not run.violations:
